@@ -11,6 +11,7 @@ Postcondition: result = PRE-items ++ E_0 ++ ... ++ E_n-1 ++ remaining items, whe
   split item when k is not the last sub-block) if sub-block k is replaced, and the original items of the segment otherwise.
 """
 import ast
+import itertools
 import types
 import z3
 
@@ -208,6 +209,23 @@ class RebuildUnbounded(Case):
         self.nsub = nsub
         self.name = "rebuild_optimized_asm_block(unbounded,%d sub-blocks)" % nsub
         self.loops = {(QUAL, '*'): classify}
+        # boundary seeds, always run on the real function: small lengths x every replacement pattern
+        seeds = []
+        for pre in (0, 2):
+            for rest in (0, 1):
+                for lens in itertools.product((1, 2, 3), repeat=nsub):
+                    if any(lens[k] < 2 for k in range(nsub - 1)) or any(lens[k] < 2 for k in range(1, nsub)):
+                        continue
+                    cons = sum(lens[k] if k == 0 else lens[k] - 1 for k in range(nsub))
+                    for choice in itertools.product((0, 1, 2), repeat=nsub):
+                        for rl in ((0, 2) if 2 in choice else (0,)):
+                            d = dict(len_prev=pre + cons + rest, PRE=pre)
+                            for k in range(nsub):
+                                d['len_S%d' % k] = lens[k]
+                                d['replacement%d' % k] = choice[k]
+                                d['len_R%d' % k] = rl
+                            seeds.append(d)
+        self.seeds = tuple(seeds)
 
     def run(self, H):
         if not H.symbolic:
